@@ -17,6 +17,36 @@ from .utils import CallbackSuccess, get_arrays_tol
 from .utils import exact_1d_array
 
 
+def _get_limits_tol(lb, ub):
+    """
+    Get the tolerances below which pairs of limits are considered equal.
+
+    The tolerances are relative to the magnitudes of each pair of limits, so
+    that two distinct limits are not merged because another component of the
+    same arrays is large.
+
+    Parameters
+    ----------
+    lb : `numpy.ndarray`, shape (m,)
+        Lower limits.
+    ub : `numpy.ndarray`, shape (m,)
+        Upper limits.
+
+    Returns
+    -------
+    `numpy.ndarray`, shape (m,)
+        Tolerance for each pair of limits.
+    """
+    weight = np.ones(lb.shape)
+    for array in (lb, ub):
+        is_finite = np.isfinite(array)
+        weight[is_finite] = np.maximum(
+            weight[is_finite],
+            np.abs(array[is_finite]),
+        )
+    return get_arrays_tol(lb, ub) * weight / np.max(weight, initial=1.0)
+
+
 class ObjectiveFunction:
     """
     Real-valued objective function.
@@ -241,7 +271,7 @@ class LinearConstraints:
         for constraint in constraints:
             is_equality = np.abs(
                 constraint.ub - constraint.lb
-            ) <= get_arrays_tol(constraint.lb, constraint.ub)
+            ) <= _get_limits_tol(constraint.lb, constraint.ub)
             if np.any(is_equality):
                 self._a_eq = np.vstack((self.a_eq, constraint.A[is_equality]))
                 self._b_eq = np.concatenate(
@@ -461,7 +491,7 @@ class NonlinearConstraints:
 
                 # figure out equality and inequality maps
                 lb, ub = pc.bounds[0], pc.bounds[1]
-                arr_tol = get_arrays_tol(lb, ub)
+                arr_tol = _get_limits_tol(lb, ub)
                 is_equality = np.abs(ub - lb) <= arr_tol
                 self._map_eq.append(idx[is_equality])
                 self._map_ub.append(idx[~is_equality])
@@ -700,7 +730,7 @@ class Problem:
             )
 
         # Check which variables are fixed.
-        tol = get_arrays_tol(bounds.xl, bounds.xu)
+        tol = _get_limits_tol(bounds.xl, bounds.xu)
         self._fixed_idx = (bounds.xl <= bounds.xu) & (
             np.abs(bounds.xl - bounds.xu) < tol
         )
